@@ -10,6 +10,7 @@ import (
 	"encoding/json"
 	"fmt"
 	"os"
+	"runtime"
 	"strings"
 
 	"github.com/theQRL/go-qrllib/dilithium"
@@ -212,6 +213,49 @@ func main() {
 				c.Nontrivial(1)
 				if !v1 || o1 == nil || !v2 || o2 == nil {
 					c.Fail(i, "key-sequence:valid-signature-rejected", map[string]any{"key_a": a, "key_b": b, "same_variable": reuse, "verify_a": v1, "open_a_nil": o1 == nil, "verify_b": v2, "open_b_nil(empty message)": o2 == nil})
+				}
+				c.Outcome("ok")
+			}
+		}})
+	ck.Domains = append(ck.Domains, &drv.Domain{Name: "key-object-storage-reuse", Size: 4*4 + 1, Chunk: 4,
+		Desc: "key objects whose STORAGE is reused: for every ordered pair (a,b) of 4 keys a fresh object of key a signs, is overwritten in place by key b (*d = *other; for a == b: a value copy signs instead), and signs / seals again; plus 32 short-lived objects of rotating keys created, used and dropped with garbage collections in between: every signature verifies under the object's own current public key, every sealed message opens to the message, and the extracted parts are the signature and the message",
+		Run: func(c *drv.Ctx, lo, hi int64) {
+			mk := func(k int) *dilithium.Dilithium { d, _ := dilithium.NewDilithiumFromSeed(dilscope.Seed(k, c.Seed)); return d }
+			msg := []byte("storage reuse message (C03)")
+			use := func(i int64, what string, d *dilithium.Dilithium) {
+				sig, e1 := d.Sign(msg)
+				sm, e2 := d.Seal(msg)
+				pk := d.GetPK()
+				c.Eval(2)
+				ok := e1 == nil && e2 == nil && dilithium.Verify(msg, sig, &pk) && bytes.Equal(dilithium.Open(sm, &pk), msg) &&
+					bytes.Equal(dilithium.ExtractSignature(sm), sig[:]) && bytes.Equal(dilithium.ExtractMessage(sm), msg)
+				if !ok {
+					c.Fail(i, "storage-reuse:signature-or-sealed-message-not-accepted-under-the-object's-own-public-key", map[string]any{"step": what, "verify": e1 == nil && dilithium.Verify(msg, sig, &pk)})
+				}
+			}
+			for i := lo; i < hi; i++ {
+				c.At(i)
+				c.Nontrivial(1)
+				if i == 16 {
+					for j := 0; j < 32; j++ {
+						d := mk(j % 3)
+						use(i, fmt.Sprintf("short-lived object %d (key %d)", j, j%3), d)
+						d = nil
+						runtime.GC()
+						runtime.GC()
+					}
+					c.Outcome("ok")
+					continue
+				}
+				a, b := int(i%4), int(i/4)
+				d := mk(a)
+				use(i, fmt.Sprintf("key %d", a), d)
+				if a == b {
+					cp := *d
+					use(i, fmt.Sprintf("value copy of key %d", a), &cp)
+				} else {
+					*d = *mk(b)
+					use(i, fmt.Sprintf("after *d = *key%d (was key %d)", b, a), d)
 				}
 				c.Outcome("ok")
 			}
